@@ -133,6 +133,7 @@ type Frame struct {
 	contract *Contract
 	entry    *State // state at function entry (for old())
 	prevSt   *State // state at the head of the loop iteration being closed (for prev() in atback clauses)
+	headSts  map[int]*State // loop number -> state at the head of its current iteration (for at(N, e))
 	params   map[string]Value
 	rets     []retInfo
 	loops    map[*ssa.BasicBlock]*loopInfo
